@@ -1,10 +1,92 @@
-(* C01 - placeholder statements; extended below as proofs land *)
-From Coq Require Import ZArith QArith List.
-From NutsV Require Import model.Tree.
+(* C01 - NUTS transition is reversible with respect to the target density.
+   Statements only; proofs in proofs/Balance.v and proofs/Tree_facts.v. *)
+From Coq Require Import ZArith QArith List Bool.
+From NutsV Require Import model.Tree proofs.Tree_facts proofs.Balance.
 Import ListNotations.
-Example C01_model_runs :
-  run_draw_gen false [ {| os_idx := 0; os_w := 1; os_q := [1#1]; os_v := [1#1]; os_bad := false; os_fatal := false |} ]
-    {| n_maxdepth := 0; n_mindepth := 0; n_extra := 0; n_check := true; n_dim0 := false |} []
-  = [[0; 0; 0; 0; -999999; 1; -999999; 0]%Z; []; []].
+
+(* Detailed balance on every orbit: for all positive weights (pi up to a constant), every U-turn
+   predicate on index pairs, every maxdepth, and any two states a, b of the orbit,
+   pi(a) P(a -> b) = pi(b) P(b -> a), where P is the exact distribution of the model of nuts::draw
+   (default options: mindepth 0, no extra doublings, check_turning, no divergences). *)
+Theorem C01_detailed_balance :
+  forall (wt : Z -> Q) (turn : Z -> Z -> bool) (maxdepth : nat),
+    (forall i, 0 < wt i)%Q ->
+    forall a b : Z,
+      (wt a * trans_prob wt turn nofault nofault (std_opts maxdepth) a b ==
+       wt b * trans_prob wt turn nofault nofault (std_opts maxdepth) b a)%Q.
+Proof. exact detailed_balance. Qed.
+Print Assumptions C01_detailed_balance.
+
+(* closed form: P(a->b) = [a=b] Keep + Rr (linear in the current selection) *)
+Theorem C01_trans_prob_formula :
+  forall (wt : Z -> Q) (turn : Z -> Z -> bool) (maxdepth : nat),
+    (forall i, 0 < wt i)%Q ->
+    forall a b : Z,
+      (trans_prob wt turn nofault nofault (std_opts maxdepth) a b ==
+       ind a b * Keep wt turn maxdepth a 0 + Rr wt turn maxdepth a 0 b)%Q.
+Proof. exact trans_prob_formula. Qed.
+Print Assumptions C01_trans_prob_formula.
+
+(* Sub-trees: uniform progressive sampling is exact multinomial sampling over the block, and
+   whether the sub-tree is rejected depends only on the U-turn checks of its dyadic sub-blocks
+   (the same set of checks in both directions: `ok`), never on the coins. *)
+Theorem C01_subtree_multinomial_fwd :
+  forall (wt : Z -> Q) (turn : Z -> Z -> bool),
+    (forall i, 0 < wt i)%Q ->
+    forall (j : nat) (i : Z),
+    exists w : Q, (w == bw wt i j)%Q /\
+      forall G : sres -> Q,
+        (expect (sibling wt turn nofault nofault j i true true) G ==
+         if ok turn i j then avg wt i j (fun x => G (SOk (mk i j x w false))) else G STurn)%Q.
+Proof. exact sibling_fwd. Qed.
+Print Assumptions C01_subtree_multinomial_fwd.
+
+Theorem C01_subtree_multinomial_bwd :
+  forall (wt : Z -> Q) (turn : Z -> Z -> bool),
+    (forall i, 0 < wt i)%Q ->
+    forall (j : nat) (lo i : Z), i = (lo + P2 j - 1)%Z ->
+    exists w : Q, (w == bw wt lo j)%Q /\
+      forall G : sres -> Q,
+        (expect (sibling wt turn nofault nofault j i false true) G ==
+         if ok turn lo j then avg wt lo j (fun x => G (SOk (mk lo j x w false))) else G STurn)%Q.
+Proof. exact sibling_bwd. Qed.
+Print Assumptions C01_subtree_multinomial_bwd.
+
+(* the choice tree is a probability distribution: every coin has a probability in [0,1], every
+   doubling direction has mass 1/2 (definition of `expect` on Dir), total mass 1 *)
+Theorem C01_probabilities_well_formed :
+  forall (wt : Z -> Q) (turn : Z -> Z -> bool) (bad fatal : Z -> bool) (o : nopts) (a : Z),
+    (forall i, 0 < wt i)%Q -> wf_probs (pdraw wt turn bad fatal o a).
+Proof. exact pdraw_wf. Qed.
+Print Assumptions C01_probabilities_well_formed.
+
+Theorem C01_total_mass :
+  forall (A : Type) (m : ptree A), (expect m (fun _ => 1) == 1)%Q.
+Proof. exact expect_total. Qed.
+Print Assumptions C01_total_mass.
+
+Theorem C01_direction_half :
+  forall (A : Type) (k : bool -> ptree A) (g : A -> Q),
+    (expect (Dir k) g == (1 # 2) * expect (k true) g + (1 # 2) * expect (k false) g)%Q.
+Proof. intros. reflexivity. Qed.
+Print Assumptions C01_direction_half.
+
+(* the leapfrogs of one doubling are the consecutive indices beyond the tree's edge: the same
+   orbit is traversed whichever state of it the trajectory started from *)
+Theorem C01_extend_walks_orbit :
+  forall (wt : Z -> Q) (turn : Z -> Z -> bool) (bad fatal : Z -> bool) (t : tree) (fwd check : bool)
+         (l : list Z) (r : xres),
+    outcome (extend wt turn bad fatal t fwd check) l r ->
+    l = walk (next_index t fwd) fwd (length l).
+Proof. exact extend_walk. Qed.
+Print Assumptions C01_extend_walks_orbit.
+
+(* non-vacuity: a 3-state orbit with unequal weights; both sides of the balance equation are
+   the same non-zero number *)
+Definition wt_ex (i : Z) : Q := if (i =? 0)%Z then 1 else if (i =? 1)%Z then (1 # 2) else (1 # 3).
+Example C01_nonvacuous :
+  (Qred (wt_ex 0 * trans_prob wt_ex (fun _ _ => false) nofault nofault (std_opts 2) 0 1),
+   Qred (wt_ex 1 * trans_prob wt_ex (fun _ _ => false) nofault nofault (std_opts 2) 1 0))
+  = ((67 # 288)%Q, (67 # 288)%Q).
 Proof. vm_compute. reflexivity. Qed.
-Print Assumptions C01_model_runs.
+Print Assumptions C01_nonvacuous.
